@@ -258,6 +258,17 @@ func solveAll(qs []*Query, timeout int, par int) []*QResult {
 		}
 	}
 	runStage(rest2, 3, func(i int) *QResult { return solveRace(dir, i, qs[i], 4*timeout, results[i]) })
+	// last resort, one at a time: wall-clock timeouts under a loaded machine must not turn a provable
+	// obligation into "undecided" (which the check reports as a violation)
+	var rest3 []int
+	for _, i := range rest2 {
+		if !decided(results[i]) {
+			rest3 = append(rest3, i)
+		}
+	}
+	if len(rest3) <= 4 {
+		runStage(rest3, 1, func(i int) *QResult { return solveRace(dir, i, qs[i], 8*timeout, results[i]) })
+	}
 	for _, i := range rest2 {
 		if !decided(results[i]) {
 			groundCandidate(dir, i, qs[i], results[i])
@@ -477,17 +488,17 @@ func lastSexp(s string) string {
 
 // summarise groups query results by obligation name.
 type ObligResult struct {
-	Name    string
-	Group   string
-	Kind    string
-	Status  string // discharged | failed | undecided | vacuous
-	Solver  string
-	Secs    float64
-	Sites   int
-	Failing *QResult
+	Name       string
+	Group      string
+	Kind       string
+	Status     string // discharged | failed | undecided | vacuous
+	Solver     string
+	Secs       float64
+	Sites      int
+	Failing    *QResult
 	AllFailing []*QResult
-	Pos     string
-	Src     string
+	Pos        string
+	Src        string
 }
 
 func summarise(rs []*QResult) []*ObligResult {
@@ -497,6 +508,9 @@ func summarise(rs []*QResult) []*ObligResult {
 		name := r.Q.Name
 		if r.Q.Group == "safety" {
 			name = r.Q.Unit + ".safety"
+		}
+		if r.Q.Group == "nopanic" {
+			name = r.Q.Unit + ".nopanic"
 		}
 		o := byName[name]
 		if o == nil {
